@@ -61,6 +61,13 @@ class NewArgsEx:
     __hash__ = object.__hash__
 
 
+class NewArgsExOD(NewArgsEx):
+    """keyword arguments delivered as an OrderedDict: pickled as REDUCE + SETITEM, i.e. not a dict literal"""
+
+    def __getnewargs_ex__(self):
+        return (self.x,), collections.OrderedDict(k=self.k)
+
+
 def make(*args):
     return Reduced(*args)
 
